@@ -41,8 +41,13 @@ def pattern_cases(rng):
     return out
 
 
+NEAR_BAND = {"kind": "near_band", "vertices": [[0.0, 0.0, 1.1e-8], [1.0, 0.0, 0.9e-8], [0.0, 1.0, -1.0]],
+             "faces": [[0, 1, 2]], "ref": [0.0, 0.0, 0.0], "normal": [0.0, 0.0, 1.0], "mask": None,
+             "ret_face_mapping": True, "int32": False, "has_near": True, "inexact": False}
+
+
 def gen_cases(rng, n, tier):
-    cases = pattern_cases(rng)
+    cases = pattern_cases(rng) + [dict(NEAR_BAND)]  # the known finding's example, always exercised
     while len(cases) < n:
         c = S.gen_mesh_case(rng, tier, "geom")
         if not c["vertices"]:
@@ -82,4 +87,6 @@ def oracle(c, o):
 
 
 def classify(c, o, failure, disagrees):
-    return None
+    if c.get("kind") == "unique_bincount":
+        return None
+    return S.near_band_class(c, failure)
